@@ -889,6 +889,15 @@ def check_mirror(ctx, case):
             bud.violation('mirror_reflectivity(%s, density=%r, %s, angle=%r deg, roughness=%r) = %r is not in [0, 1] '
                           '(index of refraction %r)' % (name, rho, 'energy=%r' % e, float(ang[i]), sigma, col[i], nv[j]),
                           kind='mirror.range')
+    # observed only (the property states the range, not the formula): Fresnel reflectivity of a thick
+    # mirror, s-polarisation, at zero roughness
+    if sigma == 0 and not bud.n:
+        with np.errstate(all='ignore'):
+            th = np.radians(ang)[:, None]
+            kz = np.sqrt(nv[None, :] ** 2 - np.cos(th) ** 2)
+            fres = np.abs((np.sin(th) - kz) / (np.sin(th) + kz)) ** 2
+            same = np.isclose(R, fres, rtol=1e-9, atol=1e-15) | ~np.isfinite(fres) | ~np.isfinite(R)
+        ctx.count('observed.mirror.fresnel_s_pol.' + ('agrees' if same.all() else 'differs'))
     # scalar energy and scalar angle give the same number as the grid
     j = 0
     if np.isfinite(nv[j]) and not bud.n:
@@ -1023,17 +1032,24 @@ def check_f0_atoms(ctx, case):
 
 
 def check_constants(ctx, case):
-    """r_e, N_A, h, c are data for the reference; pin them to CODATA (1e-6) and h c to 12.398 keV A."""
+    """r_e, N_A, h, c are data for the reference; each must be a published CODATA value and
+    h c = 12.398 keV A; the x-ray module must use those very objects."""
     from ..ref import xray as xref
     xsf = _state['xsf']
     ctx.evaluated(len(xref.CODATA), 'constants')
     for name, got, want in xref.pin_constants(1e-6):
-        ctx.violation('periodictable.constants.%s = %r, CODATA %r' % (name, got, want), kind='constant')
+        ctx.violation('periodictable.constants.%s = %r, expected %s' % (name, got, want), kind='constant')
     ctx.evaluated(2, 'constants')
     for fn in (xsf.xray_wavelength, xsf.xray_energy):
         got = float(fn(1.0))
         if not abs(got - xref.HC_KEV_ANGSTROM) <= 1e-6 * xref.HC_KEV_ANGSTROM:
             ctx.violation('%s(1.0) = %r, h c = %r keV A' % (fn.__name__, got, xref.HC_KEV_ANGSTROM), kind='constant')
+    from periodictable import constants
+    ctx.evaluated(4, 'constants')
+    for name in ('electron_radius', 'avogadro_number', 'plancks_constant', 'speed_of_light'):
+        if getattr(xsf, name, None) != getattr(constants, name):
+            ctx.violation('periodictable.xsf.%s = %r but periodictable.constants.%s = %r'
+                          % (name, getattr(xsf, name, None), name, getattr(constants, name)), kind='constant')
     ctx.distinct_case(('constants',))
 
 
